@@ -21,6 +21,7 @@ Per case the output is
 """
 import _boot
 import reg_common as R
+from zope.interface.declarations import _empty
 from zope.interface import (alsoProvides, classImplements, classImplementsFirst, classImplementsOnly,
                             directlyProvides, noLongerProvides, providedBy)
 
@@ -132,32 +133,49 @@ KEEP = []
 
 
 def new_world(case):
+    """A fresh world; the empty declaration ``_empty`` (what an object that provides nothing
+    provides) is numbered right after the specs of the world, objects flagged "empty" provide it."""
     w = R.World(case)
     KEEP.append(w)
+    w.empty_id = w.spec_id(_empty)
+    for ob, o in zip(w.objects, case.get("objects", [])):
+        if o.get("empty"):
+            ob.__provides__ = _empty
     return w
 
 
+def concrete(w, x):
+    """ops name the empty declaration "E": replace it by its number in this world"""
+    if x == "E":
+        return w.empty_id
+    if isinstance(x, list):
+        return [concrete(w, y) for y in x]
+    return x
+
+
 def one_case(case, limit):
+    # The replays run FIRST: a defect that damages process-wide state during the full run (the
+    # _empty singleton) must not reach the worlds the full run is compared with.
+    erased = []
+    for i in probes(case["ops"], limit):
+        w2 = new_world(case)
+        pre = [concrete(w2, op) for op in case["ops"][:i] if op[0] in MUTATIONS]
+        run(w2, pre)
+        a, _s, _p, _t = run(w2, [concrete(w2, case["ops"][i])])
+        erased.append([i, a[0]])
     w = new_world(case)
     first = []
     first_bases(w, first)
     answers, assigns, provides, trouble = [], [], [], []
     for op in case["ops"]:
-        a, s, p, t = run(w, [op])
+        a, s, p, t = run(w, [concrete(w, op)])
         answers += a
         assigns += s
         provides += p
         trouble += t
         first_bases(w, first)
     kinds = list(w.kinds)
-    erased = []
-    for i in probes(case["ops"], limit):
-        w2 = new_world(case)
-        pre = [op for op in case["ops"][:i] if op[0] in MUTATIONS]
-        run(w2, pre)
-        a, _s, _p, _t = run(w2, [case["ops"][i]])
-        erased.append([i, a[0]])
-    return {"specs": [{"kind": kinds[i], "bases": first[i]} for i in range(len(first))],
+    return {"empty_id": w.empty_id, "specs": [{"kind": kinds[i], "bases": first[i]} for i in range(len(first))],
             "answers": answers, "assigns": assigns, "provides": provides, "erased": erased,
             "trouble": trouble}
 
